@@ -4,6 +4,8 @@
 #![allow(clippy::all)]
 #![allow(unexpected_cfgs)]
 pub mod io;
+#[cfg(feature = "guard")]
+mod guard_alloc;
 include!(concat!(env!("OUT_DIR"), "/ops_all.rs"));
 
 use std::io::{BufRead, BufWriter, Write};
